@@ -10,13 +10,20 @@ def run(rep: Report, repo: Repo, tier: str) -> None:
     rep.assume("os.path.relpath of two paths below the same root and os.path.basename are location independent",
                "sorted() of str is deterministic; dict iteration is insertion ordered",
                "each entry is rendered once per run (process() mutating its own entry is noted, not claimed)")
-    fsrules.rule_no_location_in_content(rep, repo, "C17-R1")
+    with rep.isolated():
+        fsrules.rule_no_location_in_content(rep, repo, "C17-R1")
     rep.floor("C17-R1", 8, "content sinks")
-    fsrules.rule_no_nondeterminism(rep, repo, "C17-R2")
-    fsrules.rule_isolation(rep, repo, "C17-R3")
-    fsrules.rule_no_set_order(rep, repo, "C17-R4")
-    fsrules.rule_no_location_as_pattern(rep, repo, "C17-R5")
-    fsrules.rule_walk_root_absolute(rep, repo, "C17-R6")
+    with rep.isolated():
+        fsrules.rule_no_nondeterminism(rep, repo, "C17-R2")
+    with rep.isolated():
+        fsrules.rule_isolation(rep, repo, "C17-R3")
+    with rep.isolated():
+        fsrules.rule_no_set_order(rep, repo, "C17-R4")
+    with rep.isolated():
+        fsrules.rule_no_location_as_pattern(rep, repo, "C17-R5")
+    with rep.isolated():
+        fsrules.rule_walk_root_absolute(rep, repo, "C17-R6")
     # removing from a list while iterating it skips the neighbour of each removed entry: which entries survive depends on the
     # order of the directory listing
-    fsrules.rule_no_mutation_while_iterating(rep, repo, "C17-R7")
+    with rep.isolated():
+        fsrules.rule_no_mutation_while_iterating(rep, repo, "C17-R7")
